@@ -559,6 +559,9 @@ Proof. intros s g H. unfold parse_entity_def. pay_tac. Qed.
 Lemma parse_entity_decl_rinv : forall s c, sinv text s -> IC c ->
   rinv text SC (parse_entity_decl text C ev s c).
 Proof. intros s c H Hc. unfold parse_entity_decl. pay_tac. Qed.
+Lemma consume_decl_loop_rinv : forall fuel s, sinv text s -> rinv text (sinv text) (consume_decl_loop text fuel s).
+Proof. induction fuel as [|fu IH]; intros s H; cbn [consume_decl_loop]; pay_tac. Qed.
+#[local] Hint Resolve consume_decl_loop_rinv : pay.
 Lemma consume_decl_rinv : forall s, sinv text s -> rinv text (sinv text) (consume_decl text s).
 Proof. intros s H. unfold consume_decl. pay_tac. Qed.
 Lemma parse_doctype_start_rinv : forall s, sinv text s -> rinv text (sinv text) (parse_doctype_start text s).
